@@ -137,6 +137,57 @@ def fn_triples_n3(items):
     return {'n': n, 'nt': nt, 'viol': viol}
 
 
+def _sparse_strings(N, K):
+    """Deterministic structured subset of the 4^N strings: all weight<=1 strings, the four constant strings,
+    and K strings on a multiplicative lattice (covers every qubit position with every letter)."""
+    out = {(0,) * (2 * N)}
+    for q in range(N):
+        for a in ((1, 0), (0, 1), (1, 1)):
+            g = [0] * (2 * N)
+            g[2 * q], g[2 * q + 1] = a
+            out.add(tuple(g))
+    for a in ((1, 0), (0, 1), (1, 1)):
+        out.add(tuple(a * N))
+    M = 4 ** N
+    x = 1
+    for k in range(K):
+        x = (x * 2654435761 + 40503 * (k + 1)) % M
+        out.add(tuple(int(b) for b in np.binary_repr(x, 2 * N)))
+    return np.array(sorted(out), dtype=np.int64)
+
+
+def fn_sparse(items):
+    """item = [N, K, pkg]: N=5..9 (no complete sweep possible in the quick tier): every ordered pair of a structured
+    subset of strings x all 4x4 phases: Pauli.__matmul__, utils.ipow, utils.acq vs the reference; squares."""
+    n = nt = 0
+    viol = []
+    for N, K, pkg in items:
+        S = _sparse_strings(N, K)
+        ea = ref.anti(S[:, None, :], S[None, :, :])
+        for i, g1 in enumerate(S):
+            ga1 = np.array(g1, dtype=lib.INT)
+            eg0, ep0 = ref.mul(g1[None, :], 0, S, 0)
+            for j, g2 in enumerate(S):
+                ga2 = np.array(g2, dtype=lib.INT)
+                a = int(lib.pu.acq(ga1, ga2))
+                ip = int(lib.pu.ipow(ga1, ga2))
+                n += 2
+                if a != ea[i, j]:
+                    viol.append(V('C01/acq/py/N>=5', [N, K, pkg], 'N=%d acq(%s,%s)=%d, matrices say %d' % (N, ref.g_to_str(g1), ref.g_to_str(g2), a, ea[i, j])))
+                if ip != ep0[j]:
+                    viol.append(V('C01/ipow/py/N>=5', [N, K, pkg], 'N=%d ipow(%s,%s)=%d, matrices say %d' % (N, ref.g_to_str(g1), ref.g_to_str(g2), ip, ep0[j])))
+                p1, p2 = (i + j) % 4, (3 * i + j + 1) % 4
+                res = lib.P(g1, p1) @ lib.P(g2, p2)
+                eg, ep = ref.mul(g1, p1, g2, p2)
+                n += 1
+                nt += int(ea[i, j] or p1 or p2)
+                if (np.asarray(res.g) != eg).any() or int(res.p) % 4 != int(ep):
+                    viol.append(V('C01/matmul/py/N>=5', [N, K, pkg], 'N=%d: %s @ %s -> %s; matrices say %s' % (N, ref.g_to_str(g1, p1), ref.g_to_str(g2, p2), ref.g_to_str(res.g, res.p), ref.g_to_str(eg, ep))))
+            if len(viol) > 20:
+                break
+    return {'n': n, 'nt': nt, 'viol': viol}
+
+
 def fn_long_chain(items):
     """item = [N, start, stride]: a walk through the whole group: multiply the running
     product by every element in turn (4*4^N factors), compare with the reference after
@@ -301,6 +352,8 @@ def legs(tier):
     if tier != 'quick':
         out.append(Leg('triples_N3', fn_triples_n3, [[i] for i in range(64)], chunk=1,
                        bound='N=3: all 64^3 string triples x 4 phases of the middle operand (1 048 576 triples, both bracketings)'))
+    out.append(Leg('sparse_N5to9', fn_sparse, [[N, 40 if tier == 'quick' else 160, 'py'] for N in (5, 6, 7, 8, 9)], chunk=1, exhaustive=False, supplementary=True,
+                   bound='N=5..9: all ordered pairs of a structured subset of strings (weight<=1, constant strings, %d lattice strings) x rotating phases: matmul, ipow, acq (the complete sweep stops at N=%d in this tier)' % (40 if tier == 'quick' else 160, Ns[-1])))
     lc = [[N, s, st] for N in (1, 2, 3, 4) for s in (0, 5) for st in (1, 3, 7)]
     out.append(Leg('long_chain', fn_long_chain, lc, chunk=1, bound='walks of 4*4^N factors visiting every element'))
     out.append(Leg('batch_py', fn_batch, [[N, 'py'] for N in ((1, 2) if tier == 'quick' else (1, 2, 3))], chunk=1,
